@@ -127,6 +127,9 @@ def check_written(rep, progs):
             bad, cls = "the XML of a finalized file does not parse or does not extract under the independent XML specification (%s)" % d[:80], "c02-xml-unparsable"
         elif got != sorted(stated):
             bad, cls = "the XML of a finalized file states sections %s, the writer published (point clouds and image blobs) %s" % (got[:4], sorted(stated)[:4]), "c02-xml-descriptors"
+        elif head.get("proto") != "1" or proto_values_python(bytes.fromhex(xml).decode("utf-8", "replace")):
+            bad, cls = ("a prototype element's value lies outside the element's own limits (extracted validator: proto=%s; independent text check: %s)" %
+                        (head.get("proto"), proto_values_python(bytes.fromhex(xml).decode("utf-8", "replace"))[:1])), "c02-prototype-value-out-of-bounds"
         elif head.get("wfx") != "1":
             bad, cls = "the file is not well formed with the descriptors its own XML states (%s)" % d[:80], "c02-illformed-xml"
         if bad:
@@ -234,6 +237,79 @@ def check_foreign(rep, tier):
     return len(names), accepted
 
 
+def proto_values_python(xml):
+    """independent check on the XML text: every child of every <prototype> has a text that is a value of its type
+    within [minimum, maximum] where declared (absent text = 0); returns the offending elements"""
+    bad = []
+    for pm in re.finditer(r"<prototype\b[^>]*>(.*?)</prototype>", xml, re.S):
+        for e in re.finditer(r"<([\w:.-]+)((?:\s+[\w:.-]+\s*=\s*\"[^\"]*\")*)\s*(?:/>|>([^<]*)</\1\s*>)", pm.group(1)):
+            at = dict(re.findall(r'([\w:.-]+)\s*=\s*"([^"]*)"', e.group(2)))
+            text = e.group(3) if e.group(3) not in (None, "") else "0"
+            try:
+                if at.get("type") in ("Integer", "ScaledInteger"):
+                    v, mn, mx = int(text), int(at.get("minimum", I64_MIN)), int(at.get("maximum", I64_MAX))
+                    ok = mn <= v <= mx
+                elif at.get("type") == "Float":
+                    v = float(text)
+                    ok = v == v and ("minimum" not in at or float(at["minimum"]) <= v) and ("maximum" not in at or v <= float(at["maximum"]))
+                else:
+                    ok = True
+            except ValueError:
+                ok = False
+            if not ok:
+                bad.append(e.group(0)[:160])
+    return bad
+
+
+def f32_bits(x):
+    return struct.unpack("<I", struct.pack("<f", x))[0]
+
+
+def check_float_limits(rep, rng, tier):
+    """prototypes with limited Float records (limits above zero, below zero, only a negative maximum, only a positive
+    minimum, ranges containing zero, unit range), written by the real writer (harness kind SIMW of slice simple);
+    the extracted validator and the text check must find every prototype value within its limits"""
+    impl = core.ensure_harness("debug")
+    shapes = [(0.5, 120.0), (1.0, 4096.0), (-120.0, -0.5), (None, -2.0), (None, -0.0), (2.0, None), (0.0, 1.0), (-1.0, 1.0),
+              (None, 3.0), (-3.0, None), (None, None), (1e-30, 1e30), (-1e30, -1e-30), (7.0, 7.0), (None, -1e-40)]
+    # limits the writer must refuse (since /repo eaf8fc6): not ordered, or NaN; if it accepts them the validator below objects
+    refused = [(5.0, 1.0), (0.0, -0.5), (float("nan"), None), (None, float("nan")), (1.0, float("nan"))]
+    lines = []
+    for _ in range(60 if tier == "quick" else 1500):
+        recs = []
+        for nm in ["x", "y", "z", "in", "ts"][:rng.range(3, 5)]:
+            mn, mx = rng.choice(refused) if rng.chance(1, 12) else rng.choice(shapes)
+            if rng.chance(1, 2):
+                tok = "F/%s/%s" % ("-" if mn is None else "%08x" % f32_bits(mn), "-" if mx is None else "%08x" % f32_bits(mx))
+            else:
+                tok = "D/%s/%s" % ("-" if mn is None else "%016x" % specgen.f64_bits(mn), "-" if mx is None else "%016x" % specgen.f64_bits(mx))
+            recs.append("%s=%s" % (nm, tok))
+        lines.append("SIMW n %s - - ~ ~" % ",".join(recs))
+    out = core.run_cases(impl, lines)
+    devs, keep = [], []
+    for l, o in zip(lines, out):
+        if o.startswith("w=o "):
+            devs.append(o.split(" dev=")[1].split()[0])
+            keep.append(l)
+    dec = core.run_cases(core.DRIVER, ["SPECDECX " + d for d in devs])
+    rep.count(len(devs))
+    n = 0
+    for l, dev, d in zip(keep, devs, dec):
+        head = dict(t.split("=", 1) for t in d.split() if "=" in t)
+        f = bytes.fromhex(dev)
+        log = crc.strip(f)
+        xo, xl = struct.unpack("<QQ", log[24:40])
+        xml = log[specgen.log_of_phys(xo):specgen.log_of_phys(xo) + xl].decode("utf-8", "replace")
+        py = proto_values_python(xml)
+        if head.get("proto") != "1" or py or head.get("wfx") != "1":
+            n += 1
+            rep.violation("c02-prototype-value-out-of-bounds",
+                          "a prototype element's value lies outside the element's own limits: %s (extracted validator: %s); program %s" %
+                          (py[:2], d[:40], l[:200]), dict(kind="simw-program", line=l, file=dev))
+    rep.cov["float_limit_prototypes_refused_by_the_writer"] = sum(1 for o in out if o.startswith("w=e"))
+    return len(devs), n
+
+
 # ---------------------------------------------------------------- the decoder has teeth
 
 def check_teeth(rep, rng):
@@ -319,6 +395,13 @@ def run(rep, tier, rng, replay=None):
     if not ok:
         return
     specgen.big_stack()
+    if replay and replay.get("kind") == "simw-program":
+        o = core.run_one(core.ensure_harness("debug"), replay["line"])
+        d = core.run_one(core.DRIVER, "SPECDECX " + o.split(" dev=")[1].split()[0]) if " dev=" in o else "no-file"
+        if "proto=1" not in d or "wfx=1" not in d:
+            rep.violation("c02-prototype-value-out-of-bounds", "a prototype element's value lies outside the element's own limits (%s)" % d[:60],
+                          dict(kind="simw-program", line=replay["line"]))
+        return
     if replay and replay.get("kind") in ("written-file", "writer-program"):
         progs = [[("B", bytes.fromhex(t[2:])) if t.startswith("B:") else
                   ("I", t.split(":")[1], bytes.fromhex(t.split(":")[2]), None if t.split(":")[3] == "-" else bytes.fromhex(t.split(":")[3])) if t.startswith("I:") else
@@ -340,13 +423,17 @@ def run(rep, tier, rng, replay=None):
         rep.distinct(gen.fnv_hex(" ".join(c01.item_tok(x) for x in items).encode()))
     n_foreign, n_acc = (0, 0) if replay else check_foreign(rep, tier)
     n_teeth, n_teeth_bad = (0, 0) if replay else check_teeth(rep, rng.fork())
+    n_fl, n_fl_bad = (0, 0) if replay else check_float_limits(rep, rng.fork(), tier)
     rep.cov.update(programs=len(progs), files_judged=judged, programs_not_ok_skipped=skipped, programs_with_a_failed_call=partly, section_start_residues_mod_1020=len(residues),
-                   foreign_files=n_foreign, foreign_files_accepted=n_acc, defective_files_for_the_decoder=n_teeth, defects_not_rejected=n_teeth_bad, direct_failures=n_dir, correspondence_failures=n_corr,
+                   foreign_files=n_foreign, foreign_files_accepted=n_acc, defective_files_for_the_decoder=n_teeth, defects_not_rejected=n_teeth_bad,
+                   float_limit_prototypes=n_fl, prototype_values_out_of_bounds=n_fl_bad, direct_failures=n_dir, correspondence_failures=n_corr,
                    traces_validated_against_impl=len(progs))
     rep.sample(dict(kind="written file", items=[c01.item_tok(x)[:100] for x in progs[len(progs) // 2]]))
     rep.cov["rule"] = ("writer programs of C01 and C06 plus call sequences in which one call fails (out-of-range, mistyped or missing value, rejected prototype; the file must still be well formed and hold the other items) (blobs, images of all four kinds with and without mask, point clouds over the type/width grid, interleaved; preceding content swept "
                        "over residues modulo 1020; packet-capacity boundary) run through the real writer; the finalized file is judged by the extracted spec_wellformed (pages, checksums, "
                        "header, XML range, every section: alignment, position outside checksums, section id, header lengths, packet lengths and stream lengths, data/index offsets, no overlap) "
                        "and decoded by the extracted spec_decode_file; points and blob bytes must equal the input; the file's own XML, parsed by the extracted xml_parse and "
-                       "extracted by the extracted extract_all (FileSpecXml.dx_of), must state exactly the published sections and the file must be spec_wellformed_xml. The bundled libE57Format files must be accepted and decode to what the "
+                       "extracted by the extracted extract_all (FileSpecXml.dx_of), must state exactly the published sections and the file must be spec_wellformed_xml, "
+                       "which includes: the text of every prototype element is a value of the element's type within the element's own minimum/maximum (also checked by an independent "
+                       "regular-expression pass over the XML text; extra programs with limited Float records: limits above zero, below zero, only a negative maximum, only a positive minimum). The bundled libE57Format files must be accepted and decode to what the "
                        "reader returns; one real file with one defect at a time (40 defects: every clause of the decoder) must be rejected. Correspondence: writer model file = real file byte for byte. distinct = distinct programs")
